@@ -80,6 +80,37 @@ def run_specs(stream, specs, ctx, per_class, r):
             bad = schemaio.positional_oracle(spec, planted, d)
             if bad:
                 stream.fail(dict(case, dict=repr(d)[:300]), bad[1], "%s/%s" % (stream.name, bad[0]))
+            elif letter != "H" and r.random() < 0.3:
+                # the same record as a frame of a message of that instrument, through the Wrapper: the same dictionary
+                from harness.props import C17
+                from harness import gens
+                hh = C17.hub_header(module)
+                if hh is not None:
+                    raw_w, d_w = raw, d
+                    if r.random() < 0.5:
+                        # a frame whose only non-ASCII bytes happen to be well-formed UTF-8 is latin-1 text all the same
+                        schemaio.MODE[0] = "utf8ish"
+                        try:
+                            raw_w, _pl = schemaio.gen_record(r, spec, fill=0.9)
+                        finally:
+                            schemaio.MODE[0] = None
+                        ok_w, d_w, _rec = schemaio.wrap_impl(cls, raw_w)
+                        if not ok_w:
+                            raw_w, d_w = raw, d
+                    frames = [gens.frame(1, hh.encode("latin-1"), True), gens.frame(2, raw_w, True)]
+                    d_cmp = d_w
+                    if C17.expected_module(frames[0].decode("latin-1")) == module:
+                        try:
+                            from senaite.astm.wrapper import Wrapper
+                            doc = Wrapper(frames).to_dict()
+                            got_w = (doc.get(letter) or [None])[-1]
+                        except Exception as e:  # noqa
+                            got_w = "raises " + type(e).__name__
+                        stream.count("through-wrapper")
+                        if got_w != d_cmp:
+                            stream.fail(dict(case, frame_record=hexb(raw_w), through_wrapper=repr(got_w)[:300], record_class=repr(d_cmp)[:300]),
+                                        "the record wrapped as a frame of a message (Wrapper.to_dict) is not the record wrapped by its class",
+                                        "%s/wrapper-differs" % stream.name)
             now = d.get("timestamp") if isinstance(d.get("timestamp"), str) else "0"
             lines.append(schemaio.model_wrap_line(module, letter, now or "0", rec))
             pend.append((case, "ok " + schemaio.dict_wire(d)))
